@@ -7,6 +7,7 @@ import Rtp.Model.AV1PayBytes
 import Rtp.Proofs.AV1PayTop
 namespace Rtp.Model.AV1B
 open Rtp Rtp.Model Rtp.Model.AV1 Rtp.Spec.Av1Rtp
+open Rtp.Model.ObuLemmas
 
 /-! ### header byte identities (all by kernel evaluation over the finitely many field values) -/
 
